@@ -395,7 +395,14 @@ fn run_case_buffered(ctx: &mut Ctx, loc: &mut Local, input: &[u8], c: u8, r: &mu
         return true;
     }
     let fmin = if matches!(input.first(), Some(0xEF) | Some(0xFE) | Some(0xFF) | Some(0)) { 4 } else { 0 };
-    let cuts = if r.bool() {
+    let cuts = if input.len() > 200 && r.chance(2, 3) {
+        // long inputs: long pieces
+        if r.bool() {
+            crate::sources::cuts_for_piece(input.len(), crate::gen::SCALE_PIECES[r.below(crate::gen::SCALE_PIECES.len())], fmin)
+        } else {
+            crate::sources::big_random_cuts(r, input.len(), fmin)
+        }
+    } else if r.bool() {
         crate::sources::cuts_for_piece(input.len(), 1, fmin)
     } else {
         let mut v = Vec::new();
@@ -502,6 +509,7 @@ fn run(ctx: &mut Ctx) {
         corpus: true,
         corpus_truncs: t.pick(8, 32),
         random_atoms: t.pick(300_000, 3_000_000),
+        scale_max: 8192,
         ..Plan::default()
     };
     for_each_input(ctx, &plan, &mut |ctx, input, src, r| {
@@ -511,7 +519,7 @@ fn run(ctx: &mut Ctx) {
             if !run_case(ctx, &mut loc, input, c, src) {
                 return false;
             }
-            if k % 4 == 0 && !run_case_buffered(ctx, &mut loc, input, c, r) {
+            if (k % 4 == 0 || src == Src::Scale) && !run_case_buffered(ctx, &mut loc, input, c, r) {
                 return false;
             }
         }
